@@ -24,6 +24,20 @@ REPO = os.environ.get("VERIF_REPO", "/repo")
 
 def load_mutants():
     out = []
+    # independently written property-breaking changes kept under /verif/seeded: each must still be reported by the checks that
+    # reported it when it was recorded (meta.json: detected_by with result VIOLATION)
+    sd = os.path.join(VERIF, "seeded")
+    if os.path.isdir(sd):
+        import json
+        for name in sorted(os.listdir(sd)):
+            mp = os.path.join(sd, name, "meta.json")
+            pp = os.path.join(sd, name, "patch.diff")
+            if not (os.path.exists(mp) and os.path.exists(pp)):
+                continue
+            meta = json.load(open(mp))
+            props = sorted(k for k, v in meta.get("detected_by", {}).items() if v.get("result") == "VIOLATION")
+            if props:
+                out.append(dict(id=f"seed-{name}", props=props, expect="fire", patch=pp))
     for fn in sorted(os.listdir(HERE)):
         if fn.startswith("m_") and fn.endswith(".py"):
             spec = importlib.util.spec_from_file_location(fn[:-3], os.path.join(HERE, fn))
@@ -37,7 +51,11 @@ def run_one(m, tier):
     tmp = tempfile.mkdtemp(prefix="pmsa-selftest-")
     try:
         shutil.copytree(os.path.join(REPO, "PyMatterSim"), os.path.join(tmp, "PyMatterSim"))
-        edits = m.get("edits") or [(m["file"], m["old"], m["new"])]
+        if m.get("patch"):
+            p = subprocess.run(["git", "apply", "--whitespace=nowarn", m["patch"]], cwd=tmp, capture_output=True, text=True)
+            if p.returncode != 0:
+                return m, None, f"seed patch does not apply: {p.stderr[:200]}"
+        edits = [] if m.get("patch") else (m.get("edits") or [(m["file"], m["old"], m["new"])])
         for file, old, new in edits:
             path = os.path.join(tmp, "PyMatterSim", file)
             with open(path, "r", encoding="utf-8") as f:
